@@ -63,6 +63,8 @@ def _(self, timeout_ms):
                     and (same(result(), m0) or (hdr0 and isinstance(result(), DatasetTransmitPayload) and same(typed(result(), DatasetTransmitPayload).header, m0)
                                                 and same(typed(result(), DatasetTransmitPayload).value, data[1])))),
             tag="local-messages-pass-through")
+    logs_result("delivered")   # ghost marker at call sites: what this call handed over (None = nothing)
+    logs_only("poll", "recv_multipart", "callback")   # what it puts on the log itself: the poll, the read, the acknowledgement
     modifies(self.acked, "events")
 
 
@@ -123,3 +125,16 @@ def _(self):
                                        and implies(k not in loop0_seen, self.inflight[k].remaining == old(self.inflight[k].remaining)
                                                    and self.inflight[k].at == old(self.inflight[k].at)))))
     modifies("at", "remaining", "events")
+
+
+@contract("cascade.executor.comms:Listener.recv_messages")
+def _(self, timeout_ms):
+    types(timeout_ms="int | None")
+    r = typed(result(), "list[Any]")
+    may_raise(ValueError, when=True)     # a malformed frame sequence is rejected (C06: never delivered)
+    # the batch given to the owner loop consists of deliveries of _recv_one only (each _recv_one return is a ghost log entry `delivered`): nothing is
+    # invented between the duplicate filter and the application.  (The converse - every delivery is in the batch - needs an existential over list
+    # positions under a quantifier over values; z3 and cvc5 time out on its preservation, so it is NOT claimed here: the C06 stand-in decides it.)
+    ensures(forall(int, lambda i: implies(0 <= i and i < len(r), r[i] is not None and logged(ev("delivered", r[i])))), tag="only-deliveries-are-returned", top=True)
+    invariant(0, len(messages) >= 1 and forall(int, lambda i: implies(0 <= i and i < len(messages), messages[i] is not None and logged(ev("delivered", messages[i])))))
+    modifies(self.acked, "events")
